@@ -71,8 +71,9 @@ impl<'a> Ctx<'a> {
     fn check_bi(&self, bi: &BiInterval, s: &[u8], what: &str) -> Result<(), Stop> {
         let n = self.text.len();
         let (f, r) = (bi.forward(), bi.revcomp());
+        // (where an empty interval sits is the implementation's business: only non-empty ones are rows of the index)
         ensure!(
-            f.lower <= f.upper && f.upper <= n && r.lower <= r.upper && r.upper <= n,
+            f.lower <= f.upper && r.lower <= r.upper && (f.lower == f.upper || f.upper <= n) && (r.lower == r.upper || r.upper <= n),
             "{}: {}: bi-interval of {:?} has intervals {:?}/{:?} outside 0..{}",
             self.head(), what, lossy(s), f, r, n
         );
@@ -172,8 +173,10 @@ pub fn check(c: &Case) -> R {
         let mut both = (false, false);
         for st in &w.steps {
             if bi.forward().lower == bi.forward().upper {
+                // the string no longer occurs: every further extension is the bi-interval of a string that
+                // does not occur either, i.e. empty again (the SMEM search itself relies on this)
                 pass.add("walk reaches the empty bi-interval");
-                break; // extension is only checked from non-empty bi-intervals
+                pass.add("extension of an empty bi-interval");
             }
             let a = st.sym as u8;
             if st.fwd {
